@@ -78,9 +78,13 @@ Definition eval_ok t rw stack p det k max_steps nep mode v : bool :=
 (* record j (1-based) is the aggregate of the per-environment statistics after L + j*T steps of each environment *)
 Definition hist_records (alpha : Q) (T L iters : nat) (hist : list (list (Q * bool))) : list (Z * Q * Q) :=
   map (fun j => iter_record (map (fun h => l_run alpha (firstn (L + j * T) h)) hist)) (seq 1 iters).
+(* the rewards of these runs are arbitrary floats (continuous actions enter the reward), so the implementation's float sums and
+   the exact rational sums differ by rounding: step counts are compared exactly, the two statistics within 1e-9 (relative) *)
+Definition rec_closeb (a b : Z * Q * Q) : bool :=
+  Z.eqb (fst (fst a)) (fst (fst b)) && Qclose (1 # 1000000000) (snd (fst a)) (snd (fst b)) && Qclose (1 # 1000000000) (snd a) (snd b).
 Definition hist_ok (alpha : Q) (N T L iters : nat) (hist : list (list (Q * bool))) (recs : list (Z * Q * Q)) : bool :=
   Nat.eqb (length hist) N && forallb (fun h => Nat.leb (L + iters * T) (length h)) hist
-  && forallb2 rec_eqb (hist_records alpha T L iters hist) recs.
+  && forallb2 rec_closeb (hist_records alpha T L iters hist) recs.
 
 Definition agree (c : case) : bool :=
   match c with
